@@ -64,6 +64,7 @@ type Returned struct {
 	Data     any    `json:"data,omitempty"`
 	Err      string `json:"err,omitempty"`
 	ErrType  string `json:"err_type,omitempty"`
+	raw      any
 }
 
 // Leak describes a goroutine still alive after the run.
@@ -263,7 +264,7 @@ func Run(req *Request) *Answer {
 	ans.Log = w.Events()
 	ans.ConcHigh = w.ConcurrencyHigh()
 	if req.Validate && ret != nil && ret.Err == "" && hang == nil {
-		validateRun(wf, ret, ans)
+		validateRun(wf, ret, ret.raw, ans)
 	}
 	return ans
 }
@@ -342,6 +343,7 @@ func execute(env *Env, wf workflow.ExecutableWorkflow, input any, req *Request, 
 			r.ret.ErrType = fmt.Sprintf("%T", err)
 		} else {
 			r.ret.Data = Normalize(data)
+			r.ret.raw = data
 		}
 	}()
 	wd := time.Duration(req.WatchdogMs) * time.Millisecond
